@@ -222,11 +222,14 @@ type vkC09Step struct {
 }
 
 // classify authenticates the publication against the reference's own trusted set.
-func (r *vkC09Ref) classify(p *vkC09Pub) vkC09Step {
+func (r *vkC09Ref) classify(p *vkC09Pub, rejectedWhole bool) vkC09Step {
 	st := vkC09Step{Auth: "none", Present: map[string]bool{}}
-	if p.Rider != "" {
-		// a DNSKEY record outside the signed RRset travels with it: the response is not an authenticated
-		// DNSKEY set (reference reading: it changes nothing; sdns rejects such a refresh as a whole)
+	if p.Rider != "" && rejectedWhole {
+		// a DNSKEY record outside the signed RRset travels with it. The property leaves two readings open
+		// and the reference follows the one the implementation reports having taken: refuse the response as
+		// a whole (validation error: nothing may change), or drop the stray record and judge the signed
+		// RRset on its own (below: the rider key is then simply absent from the publication). Either way
+		// the rider never counts as published.
 		return st
 	}
 	full := false
@@ -845,7 +848,7 @@ func (w *vkC09World) judge(ev vkC09Ev, pub *vkC09Pub, pre, post vkC09Obs, asked,
 	if !asked {
 		return &vkC09Viol{Key: "harness", Msg: "harness: AutoTA did not query the scripted root (result " + w.lastResult + ")"}, "harness"
 	}
-	st := w.ref.classify(pub)
+	st := w.ref.classify(pub, strings.Contains(w.lastResult, "validation_error"))
 	w.ref.apply(&st, now)
 	if len(st.Revoked) > 0 {
 		w.lastRev = true
